@@ -552,8 +552,8 @@ pub fn run(ctx: &Ctx) {
         info.nontrivial_if(n >= 5);
         Ok(())
     });
-    ctx.explore("aggregate", ctx.tier.pick(6_000, 150_000), 16, agg_strategy, agg_oracle);
-    ctx.explore("bytes", ctx.tier.pick(4_000, 100_000), 16, bytes_case_strategy, bytes_oracle);
-    ctx.explore("text", ctx.tier.pick(20_000, 400_000), 16, text_strategy, text_oracle);
-    ctx.explore("xorb", ctx.tier.pick(1_500, 40_000), 16, xorb_strategy, xorb_oracle);
+    ctx.explore("aggregate", ctx.tier.pick(24_000, 150_000), 16, agg_strategy, agg_oracle);
+    ctx.explore("bytes", ctx.tier.pick(16_000, 100_000), 16, bytes_case_strategy, bytes_oracle);
+    ctx.explore("text", ctx.tier.pick(80_000, 400_000), 16, text_strategy, text_oracle);
+    ctx.explore("xorb", ctx.tier.pick(6_000, 40_000), 16, xorb_strategy, xorb_oracle);
 }
